@@ -57,6 +57,7 @@ type Step struct {
 	Evidence [][3]int64 `json:"evidence,omitempty"` // (validator index in signer set, height offset back, age seconds)
 	Proposer int        `json:"proposer,omitempty"`
 	Shuffle  int64      `json:"shuffle,omitempty"` // non-zero: mempool order permuted by this value
+	CrashAt  int        `json:"crash_at,omitempty"` // non-zero: the process dies after (CrashAt-1) mod (n+1) of the n database writes of this block's Commit
 	Interf   []Interf   `json:"interf,omitempty"`
 	// ---- off-chain / faults
 	Q      *Interf `json:"q,omitempty"`
